@@ -16,6 +16,9 @@ def run(ctx):
     # time passes without events: nothing may happen (the hold timer of OpenSent is a large one)
     c = sc.consts("ebgp", {"ok", "hold0"}, {"annA"}, set(), {"Wait"}, 6, sessions=1)
     behs += sc.run_family(ctx, "quiet periods", c, 400 if big else 60, allpaths=True)
+    # an active peer: the same FSM object serves session after session (all paths: what a session leaves behind is hidden state)
+    c = sc.consts("ebgpA", {"ok", "okNoAS4"}, {"annA"}, {"badType"}, {"Notification", "ConnLost"}, 8, sessions=3)
+    behs += sc.run_family(ctx, "active peer, FSM reused", c, 4000 if big else 220, design=False, allpaths=True)
     if big:
         # all paths (not one witness per transition) over a small alphabet: real state hidden under equal abstract states
         c = sc.consts("ebgp", {"ok", "badAS"}, {"annA", "noOrigin"}, {"badType"}, {"ManualStop", "Notification", "Wait"}, 8, sessions=2)
@@ -24,7 +27,8 @@ def run(ctx):
     behs += sc.run_family(ctx, "hold3 (keepalive write failure)", c, 2000 if big else 150)
     ctx.rule = ("one witness per transition of the BGPFSM graph (every event - OPEN classes, KEEPALIVE, UPDATE classes, NOTIFICATION, "
                 "malformed header, hold timer expiry, keepalive write failure, manual stop, a quiet period of 2 s, a period longer than a short hold time bridged by KEEPALIVEs - in every state, up to 2-3 consecutive "
-                "connections) plus random event sequences; replayed on a real bgpServer with a passive peer over an in-memory connection; "
+                "connections) plus random event sequences; replayed on a real bgpServer with a passive peer over an in-memory connection, and "
+                "with an active peer whose own FSM is handed the connections and reused for up to three sessions (all paths); "
                 "after every event the observed (state, connection closed, RIBs attached, Adj-RIB-In, Loc-RIB, messages written, "
                 "negotiated hold time, ASN contribution) must equal the model's; non-trivial = the session reaches OpenConfirm or beyond")
     ctx.replay("session", behs, per_timeout=60, shards=16,
